@@ -102,8 +102,11 @@ def run(prop, tier, seed):
         raise vlib.ToolError("validator returned %d verdicts for %d records" % (len(verdicts), len(allrecs)))
 
     # the validator must reject every corrupted observation, otherwise its acceptance means nothing
-    missed = [r["id"] for r in canaries if not verdicts[r["id"]]["findings"]]
-    if missed or (len(canaries) < 3 and len(cases) > 20):
+    # (a canary made from an observation that itself violates the specification says nothing: exchanging two equal
+    #  elements of an unstable result may repair it)
+    judged = [r for r in canaries if not verdicts[r["id"].split("~canary")[0]]["findings"]]
+    missed = [r["id"] for r in judged if not verdicts[r["id"]]["findings"]]
+    if missed or (len(judged) < 3 and len(canaries) == len(judged) and len(cases) > 20):
         raise vlib.ToolError("C25V accepted corrupted observations (or none could be built): %s" % missed[:5])
 
     sorts = stable_checks = strict_unstable = 0
